@@ -24,4 +24,96 @@ def pinnedFuncs : List (String × Nat) :=
   [("binaryExpr", 1044503436609950362), ("expr0", 818264949836597507), ("expr", 3162148304915867716),
    ("selectorExpr", 17178750396950804172), ("possibleSelectorExpr", 17082502293424863665)]
 
+/-- golden table: token-text hash of EVERY function of the fork's nodes.go and printer.go
+    (`Gen.PrintDispatch.printerAllFuncs`).  Any change of the printer's code breaks obligation
+    `all_printer_functions_pinned` even when no failing input is found; the round-trip run is the search for one.
+    Update it (from Gen/PrintDispatch.lean) together with a reviewed change of go/printer. -/
+def allFuncs : List (String × Nat) :=
+  [("nodes.go:*printer.binaryExpr", 1044503436609950362),
+   ("nodes.go:*printer.block", 12300761650723147281),
+   ("nodes.go:*printer.bodySize", 16146801598149886292),
+   ("nodes.go:*printer.controlClause", 9420319066875068507),
+   ("nodes.go:*printer.decl", 7999930798683407051),
+   ("nodes.go:*printer.declList", 13237911398122310922),
+   ("nodes.go:*printer.distanceFrom", 6047710333105148478),
+   ("nodes.go:*printer.expr", 3162148304915867716),
+   ("nodes.go:*printer.expr0", 818264949836597507),
+   ("nodes.go:*printer.expr1", 15705354227899442090),
+   ("nodes.go:*printer.exprList", 13795870357714165449),
+   ("nodes.go:*printer.fieldList", 8359602730873976099),
+   ("nodes.go:*printer.file", 5985695746251231344),
+   ("nodes.go:*printer.funcBody", 13629329230348457071),
+   ("nodes.go:*printer.funcDecl", 9142274960228974284),
+   ("nodes.go:*printer.genDecl", 8561523180902546589),
+   ("nodes.go:*printer.genericInfix", 15603766705343069060),
+   ("nodes.go:*printer.identList", 8689395520924892766),
+   ("nodes.go:*printer.indentList", 16778506787187960714),
+   ("nodes.go:*printer.isOneLineFieldList", 7690619857603401881),
+   ("nodes.go:*printer.linebreak", 8179649917357364762),
+   ("nodes.go:*printer.nodeSize", 18330005901783833880),
+   ("nodes.go:*printer.numLines", 10784207204897148654),
+   ("nodes.go:*printer.parameters", 15482345824649907811),
+   ("nodes.go:*printer.parameters0", 10462408038422704026),
+   ("nodes.go:*printer.possibleSelectorExpr", 17082502293424863665),
+   ("nodes.go:*printer.receiver", 4760812130854249263),
+   ("nodes.go:*printer.selectorExpr", 17178750396950804172),
+   ("nodes.go:*printer.setComment", 6654539396596485320),
+   ("nodes.go:*printer.setLineComment", 4615579412531813318),
+   ("nodes.go:*printer.signature", 7520964329716722437),
+   ("nodes.go:*printer.spec", 18323136988451419551),
+   ("nodes.go:*printer.stmt", 5451983175264870322),
+   ("nodes.go:*printer.stmtList", 16303702746736090673),
+   ("nodes.go:*printer.templatePrefix", 7641876937879448114),
+   ("nodes.go:*printer.valueSpec", 18205899405519733448),
+   ("nodes.go:cutoff", 11141334674021870670),
+   ("nodes.go:declToken", 6182454666941775620),
+   ("nodes.go:diffPrec", 11341879896816631254),
+   ("nodes.go:funcGenericArgs", 15313740108293349622),
+   ("nodes.go:identListSize", 16320668711183760130),
+   ("nodes.go:isBinary", 15821609749856279892),
+   ("nodes.go:isTypeName", 6580762329113387655),
+   ("nodes.go:keepTypeColumn", 12435302319201058053),
+   ("nodes.go:reduceDepth", 7264169403514109781),
+   ("nodes.go:sanitizeImportPath", 12596978052658558499),
+   ("nodes.go:splitGenericArgs", 13785537516911851955),
+   ("nodes.go:stripParens", 10644261627031550219),
+   ("nodes.go:stripParensAlways", 1920690067975060191),
+   ("nodes.go:walkBinary", 10251021173766717725),
+   ("printer.go:*Config.Fprint", 7522162116884330231),
+   ("printer.go:*Config.fprint", 444821865560057882),
+   ("printer.go:*printer.commentBefore", 7591109969936411103),
+   ("printer.go:*printer.commentSizeBefore", 8872841161664383608),
+   ("printer.go:*printer.commentsHaveNewline", 8937932296712026688),
+   ("printer.go:*printer.containsLinebreak", 4043301652491588948),
+   ("printer.go:*printer.flush", 8547678849920615577),
+   ("printer.go:*printer.init", 11238599059576019774),
+   ("printer.go:*printer.internalError", 7583914212327063350),
+   ("printer.go:*printer.intersperseComments", 13213616890962026224),
+   ("printer.go:*printer.lineFor", 7722366708015131616),
+   ("printer.go:*printer.linesFrom", 13253754321397960818),
+   ("printer.go:*printer.nextComment", 456307511183386415),
+   ("printer.go:*printer.posFor", 4729298621296929944),
+   ("printer.go:*printer.print", 15828622607284517230),
+   ("printer.go:*printer.printNode", 6526102043352213065),
+   ("printer.go:*printer.recordLine", 16601726835073818222),
+   ("printer.go:*printer.writeByte", 17865152147772902351),
+   ("printer.go:*printer.writeComment", 5235367961805312110),
+   ("printer.go:*printer.writeCommentPrefix", 16148305215798545018),
+   ("printer.go:*printer.writeCommentSuffix", 8764481119615745821),
+   ("printer.go:*printer.writeIndent", 110535595940451738),
+   ("printer.go:*printer.writeLineDirective", 483475755632544232),
+   ("printer.go:*printer.writeString", 3600010064179204428),
+   ("printer.go:*printer.writeWhitespace", 13102789993754997962),
+   ("printer.go:*trimmer.Write", 1077493800953556367),
+   ("printer.go:*trimmer.resetSpace", 13924992135940666649),
+   ("printer.go:Fprint", 16181808436951285575),
+   ("printer.go:commonPrefix", 4784362706264033304),
+   ("printer.go:getDoc", 2423136875381280485),
+   ("printer.go:getLastComment", 17092620861580905186),
+   ("printer.go:isBlank", 13219354097270315348),
+   ("printer.go:mayCombine", 8403569763293082530),
+   ("printer.go:nlimit", 5855447591599494008),
+   ("printer.go:stripCommonPrefix", 13042960329470817098),
+   ("printer.go:trimRight", 4853393195801245590)]
+
 end PrintWhitelist
